@@ -50,6 +50,7 @@ type Req struct {
 	LinkListDefs bool   `json:"ll,omitempty"`
 	// CheckRender: feed every diagnostic of the main file to ddperror.MakeAdvancedHandler (C07)
 	CheckRender bool `json:"render,omitempty"`
+	WantMods    bool `json:"wantmods,omitempty"`
 }
 
 type Resp struct {
@@ -64,6 +65,7 @@ type Resp struct {
 	RenderErr string   `json:"render,omitempty"`
 	Internal  bool     `json:"internal,omitempty"` // compile: error is a CompilerError (="Unerwarteter Fehler")
 	Lits      []LitV   `json:"lits,omitempty"`     // op "lits": literal nodes of the main module in visiting order
+	Mods      []string `json:"mods,omitempty"`     // op "parse" with WantMods: file names of all modules of the import closure
 }
 
 // LitV is the value the parser assigned to one literal node.
@@ -190,7 +192,14 @@ func Handle(q *Req) (r Resp) {
 				return
 			}
 		}
-		mod, err := parser.Parse(parser.Options{FileName: q.File, Source: src, ErrorHandler: handler})
+		mods := map[string]*ast.Module{}
+		mod, err := parser.Parse(parser.Options{FileName: q.File, Source: src, ErrorHandler: handler, Modules: mods})
+		if q.WantMods {
+			for name := range mods {
+				r.Mods = append(r.Mods, name)
+			}
+			sort.Strings(r.Mods)
+		}
 		if err != nil {
 			r.Err = err.Error()
 			if r.Err == "" {
